@@ -14,6 +14,7 @@ import (
 	"net/url"
 	"os"
 	"runtime"
+	"runtime/debug"
 	"sort"
 	"strings"
 	"sync"
@@ -429,6 +430,9 @@ func okScript(audio bool, frames []fakecam.Frame, initial int) fakecam.Script {
 func runScenario(sc *scenario, rq requester) *result {
 	res := &result{}
 	id := nextID()
+	// a connection that is leaked without a goroutine holding it would be closed by
+	// its finalizer at the next collection: no collection while the scenario runs
+	defer debug.SetGCPercent(debug.SetGCPercent(-1))
 	server().SetCacheGop(sc.CacheGop)
 	defer rq.release()
 	// the handshake reads take the timeout in force at each read, the play loop the
@@ -749,14 +753,23 @@ func compareDelivery(got []media.Pack, sent []fakecam.Frame, minLive int) string
 // cleanupChecks: nothing registered, counters back, connections closed by the
 // server, consumers closed, no goroutine of the stream left.
 func cleanupChecks(res *result, sc *scenario, base baseline, cam *fakecam.Camera, canon string, recs []*mediah.Rec, afterHang bool) {
-	if !mediah.WaitFor(bound, func() bool { return media.Get(canon) == nil }) {
+	// one bound for the whole cleanup: when something is stuck, the checks behind it
+	// only get a short extra look instead of a full bound each
+	deadline := time.Now().Add(bound)
+	left := func() time.Duration {
+		if d := time.Until(deadline); d > 300*time.Millisecond {
+			return d
+		}
+		return 300 * time.Millisecond
+	}
+	if !mediah.WaitFor(left(), func() bool { return media.Get(canon) == nil }) {
 		res.failf("still-registered", "media.Get(%s) still returns a stream %v after the camera failed / the stream ended", canon, bound)
 	}
-	if !mediah.WaitFor(bound, func() bool { s, c := media.Count(); return s == base.streams && c == base.consumers }) {
+	if !mediah.WaitFor(left(), func() bool { s, c := media.Count(); return s == base.streams && c == base.consumers }) {
 		s, c := media.Count()
 		res.failf("count-leak", "media.Count() = (%d streams, %d consumers), before the scenario (%d, %d)", s, c, base.streams, base.consumers)
 	}
-	if !mediah.WaitFor(bound, func() bool { return stats.RtspConns.GetSample().Active == base.rtspActive }) {
+	if !mediah.WaitFor(left(), func() bool { return stats.RtspConns.GetSample().Active == base.rtspActive }) {
 		res.failf("conn-count-leak", "stats.RtspConns.Active = %d, before the scenario %d", stats.RtspConns.GetSample().Active, base.rtspActive)
 	}
 	if !afterHang {
@@ -764,17 +777,17 @@ func cleanupChecks(res *result, sc *scenario, base baseline, cam *fakecam.Camera
 			if c.SelfClosed == "rst" || c.SelfClosed == "teardown" {
 				continue // the camera's socket is gone; nothing to observe from its side
 			}
-			if !cam.WaitPeerClosed(i, bound) {
+			if !cam.WaitPeerClosed(i, left()) {
 				res.failf("connection-leak", "the camera never saw the server close connection %d (%v after the end); pull goroutines:\n%s", i, bound, stacksMatching("PullClient"))
 			}
 		}
 	}
 	for i, rec := range recs {
-		if !mediah.WaitFor(bound, func() bool { return rec.Closed() >= 1 }) {
+		if !mediah.WaitFor(left(), func() bool { return rec.Closed() >= 1 }) {
 			res.failf("consumer-not-closed", "consumer %d of the ended stream was never closed", i)
 		}
 	}
-	if !waitSlow(bound, func() bool { g, _ := streamGoroutines(false); return gorExcess(g, base.gor) == "" }) {
+	if !waitSlow(left(), func() bool { g, _ := streamGoroutines(false); return gorExcess(g, base.gor) == "" }) {
 		g, dump := streamGoroutines(true)
 		res.failf("goroutine-leak", "goroutines left behind: %s\n%s", gorExcess(g, base.gor), dump)
 	}
